@@ -201,11 +201,14 @@ func genCase(r *core.Rand, thorough, onlyMP bool) *tcase {
 	if thorough {
 		maxDepth = 4
 	}
-	cls := r.Weighted([]int{38, 38, 4, 5, 5, 3, 3, 2, 6})
+	cls := r.Weighted([]int{38, 38, 4, 5, 5, 3, 3, 2, 6, 1})
 	// 0 json encoding, 1 msgpack encoding, 2 bare type descriptor, 3 json wrapper, 4 msgpack wrapper, 5 raw, 6 cross, 7 deep,
 	// 8 grammar-generated refinement extension (refgen.go)
 	if cls == 8 {
 		return refinementDoc(r)
+	}
+	if cls == 9 {
+		return longDoc(r, thorough, onlyMP)
 	}
 	if onlyMP && (cls == 0 || cls == 2 || cls == 3) {
 		return nil
@@ -582,7 +585,9 @@ func depthOfMP(b []byte) int {
 func maxExponentDigits(b []byte) int {
 	mx := 0
 	for i := 0; i+1 < len(b); i++ {
-		if b[i] != 'e' && b[i] != 'E' {
+		if b[i] != 'e' && b[i] != 'E' && b[i] != 'p' && b[i] != 'P' {
+			// 'p' / 'P': big.Float's parser (and so cty.ParseNumberVal and the msgpack number strings) also
+			// accepts a BINARY exponent, "2767011611p564327421"; seen as a mutation of a digit string
 			continue
 		}
 		j := i + 1
